@@ -59,6 +59,12 @@ Fixpoint take_while (f : N -> bool) (s : str) : str :=
   | c :: s' => if f c then c :: take_while f s' else []
   end.
 
+Fixpoint drop_while_l {A} (f : A -> bool) (s : list A) : list A :=
+  match s with
+  | [] => []
+  | c :: s' => if f c then drop_while_l f s' else s
+  end.
+
 Definition trim_left (f : N -> bool) (s : str) : str := drop_while f s.
 Definition trim_right (f : N -> bool) (s : str) : str := rv (drop_while f (rv s)).
 Definition trim (f : N -> bool) (s : str) : str := trim_right f (trim_left f s).
